@@ -31,9 +31,14 @@ def leaf_text(i):
     return "v%d {{ n }} t" % i if INTERPOLATED(i) else "v%d" % i
 
 
+EMPTY = 0          # payload of a value that is defined but whose text is empty ("" or a "$t(..)" to an "" target)
+OTHER = 999999     # payload of a defined value the harness does not identify (e.g. a bare component)
+HELPER = "hx"      # top-level key every decorated file defines (as "" or as a literal): the target of "$t(hx)"
+
+
 def tree_obj(t):
     if t[0] == "L":
-        return leaf_text(t[1])
+        return t[2] if len(t) > 2 else leaf_text(t[1])
     if t[0] == "N":
         return None
     return {k: tree_obj(v) for k, v in t[1].items()}
@@ -137,8 +142,10 @@ def coq_path(p, kr):
 def payload_of(tag):
     if tag == "D":
         return "None"
+    if tag == "L":
+        return "(Some %d)" % EMPTY            # a literal with empty text: defined, not Default
     m = re.match(r"Lv(\d+)", tag)
-    return "(Some %s)" % (m.group(1) if m else "999999")
+    return "(Some %s)" % (m.group(1) if m else str(OTHER))
 
 
 def parse_impl(line, lr, kr, nr):
@@ -378,6 +385,53 @@ def derive_tree(rng, ids, dflt, p_absent=0.25, p_null=0.2, p_surplus=0.15, p_mis
     return ["G", d]
 
 
+def leaf_kind(t):
+    """literal | interpolated | empty | ref_empty | ref_text | component"""
+    if len(t) > 2:
+        if t[2] == "":
+            return "empty"
+        if t[2].startswith("$t("):
+            return "ref_empty" if t[1] == EMPTY else "ref_text"
+        return "component"
+    return "interpolated" if INTERPOLATED(t[1]) else "literal"
+
+
+def special_leaf(kind, ns, helper_payload):
+    """a defined value of the given kind; ref kinds point at the helper key of the same file"""
+    if kind == "empty":
+        return ["L", EMPTY, ""]
+    if kind in ("ref_empty", "ref_text"):
+        return ["L", helper_payload, "$t(%s%s)" % ("" if ns == "-" else ns + ":", HELPER)]
+    return ["L", OTHER, "<b></b>"]
+
+
+def decorate(rng, proj, prob=0.25):
+    """defined-but-empty values: every file gets the helper key (an "" or a literal), and some defined leaves become
+    "", a "$t(helper)" (empty when the helper is "" in that file) or a component with empty children (control: not
+    empty).  null / absent stay the only undefined forms."""
+    n = [0]
+
+    def walk(t, ns, hp, top):
+        for k, v in list(t[1].items()):
+            if top and k == HELPER:
+                continue
+            if v[0] == "G":
+                walk(v, ns, hp, False)
+            elif v[0] == "L" and len(v) == 2 and rng.random() < prob:
+                kind = rng.choice(["empty", "ref", "ref", "component"])
+                t[1][k] = special_leaf("ref_empty" if kind == "ref" and hp == EMPTY else "ref_text" if kind == "ref" else kind, ns, hp)
+    for name, tree in proj["files"].items():
+        ns = name.split("/")[0]
+        if HELPER not in tree[1]:
+            n[0] += 1
+            tree[1][HELPER] = ["L", EMPTY, ""] if rng.random() < 0.5 else ["L", 800000 + n[0]]
+        h = tree[1][HELPER]
+        if h[0] != "L":
+            continue
+        walk(tree, ns, h[1], True)
+    return proj
+
+
 class Ids:
     def __init__(self):
         self.n = 0
@@ -441,7 +495,8 @@ def shrink(ctx, exe, meta, fn):
             return False
         return bool(codes) and codes[0] == 3
     # first pass: one top-level key of the default alone (fast when the reduced project is fine)
-    dkeys = sorted({(ns, k) for ns in (p["namespaces"] or ["-"]) for k in p["files"]["%s/%s" % (ns, p["default"])][1]})
+    dkeys = sorted({(ns, k) for ns in (p["namespaces"] or ["-"]) for k in p["files"]["%s/%s" % (ns, p["default"])][1]
+                    if k != HELPER})
     if len(dkeys) > 1:
         saved, budget = budget, min(40, len(dkeys))
         for ns0, k in dkeys:
@@ -451,7 +506,7 @@ def shrink(ctx, exe, meta, fn):
             for name, t in q["files"].items():
                 keep = name.split("/")[0] == ns0
                 for kk in list(t[1]):
-                    if not (keep and kk == k):
+                    if not (keep and kk in (k, HELPER)):      # the helper stays: "$t(hx)" values point at it
                         del t[1][kk]
             if still_fails(q):
                 p = q
@@ -460,7 +515,7 @@ def shrink(ctx, exe, meta, fn):
     changed = True
     while changed and budget > 0:
         changed = False
-        keys = sorted({k for name, t in p["files"].items() for k in t[1]})
+        keys = sorted({k for name, t in p["files"].items() for k in t[1]} - {HELPER})
         for k in keys:
             if budget <= 0:
                 break
